@@ -953,7 +953,17 @@ def cases_C03(ctx):
 def cases_C06(ctx):
     cs = []
     rng = ctx.rng
-    for r in some_payloads(ctx, ctx.n(len(ctx.entries) * 2, len(ctx.entries) * 10), fit=True):
+    extra = []
+    # MSM messages with satellites but an empty signal mask (no cells): the satellite blocks are still announced
+    for e in [x for tn, x in ctx.entries if tn == "msm"][::ctx.n(7, 1)]:
+        try:
+            r = ctx.b.build(e, "small", "random", "random", overrides={"DF395": 0, "DF394": rng.getrandbits(64) | 1 << rng.randrange(64)})
+        except gens.BuildError:
+            continue
+        if len(r["payload"]) <= 1023:
+            r["entry"], r["table"], r["want"] = e, "msm", pinned.size_bits(e["key"], ctx.b.vals, r["occs"])
+            extra.append(r)
+    for r in some_payloads(ctx, ctx.n(len(ctx.entries) * 2, len(ctx.entries) * 10), fit=True) + extra:
         p = r["payload"]
         idlen = 3 if r["entry"]["num"] == 4076 else 2
         full = len(p)
